@@ -1,1 +1,2 @@
 CONSTANT MaxBatch = 3
+CONSTANT FrameCalls = 3
